@@ -214,7 +214,7 @@ def _stderr_oos(detail):
 def run_tail(rep, b, hdr, progs, env, known_culprits):
     """progs: list of dict(id, path, variant, points, control, form).  Returns dict id -> samples or None."""
     res, procs = C.run_batches(b, IMPORTS, hdr, [(p["id"], "(%%case %s %s)" % (p["id"], p["form"])) for p in progs],
-                               batch=40, env_extra=env, timeout=120, heap="64M/1G")
+                               batch=25, env_extra=env, timeout=120, heap="64M/1G")
     out = {}
     for p in progs:
         r = res.get(p["id"])
@@ -267,8 +267,11 @@ def judge_tail(rep, p, r, single_fail):
 
 
 def tail_ok_quiet(r, npoints):
-    """same decision as judge_tail without reporting (used to find the single contexts that fail alone)"""
-    if r is None or r.status != "ok":
+    """same decision as judge_tail without reporting (used to find the contexts that fail alone);
+    a watchdog / missing output counts as "unknown" = not failing"""
+    if r is None or r.status in ("timeout", "missing"):
+        return True
+    if r.status != "ok":
         return False
     try:
         obs = r.data()[0]
